@@ -220,8 +220,8 @@ for lst in (sign, negm, posm, big):
     if lst[0].lower() != lst[1].lower():
         die("jclhuff.c: encode_mcus_huff and encode_mcus_gather use different constants")
 dh = rd("jdlhuff.c")
-m = re.search(r"if \(s == (\d+)\)[^\n]*\n\s*s = (\d+);", dh)
-if not m:
+m16 = re.search(r"if \(s == (\d+)\)[^\n]*\n\s*s = (\d+);", dh)
+if not m16:
     die("jdlhuff.c: 'if (s == 16) s = 32768' not found")
 
 # ---------------------------------------------------------------- suspension inside an MCU row
@@ -262,6 +262,116 @@ ddc = strip_comments(dd)
 ctr_adv = bool(re.search(r"diff->MCU_ctr \+= MCU_count;", ddc)) and \
     bool(re.search(r"decode_mcus\) \(cinfo,\s*diff->diff_buf, yoffset, MCU_col_num,\s*cinfo->MCUs_per_row - MCU_col_num\)", ddc))
 
+# ---------------------------------------------------------------- byte level of the entropy coder
+ehc = strip_comments(eh)
+
+
+def need(pat, text, what):
+    m = re.search(pat, text)
+    if not m:
+        die(what + " not found")
+    return m
+
+
+m_align = need(r"put_buffer <<= (\d+) - put_bits;", ehc, "jclhuff.c emit_bits: 'put_buffer <<= 24 - put_bits'")
+m_byte = need(r"int c = \(int\)\(\(put_buffer >> (\d+)\) & (0x[0-9A-Fa-f]+)\);", ehc, "jclhuff.c emit_bits: byte extraction")
+m_loop = need(r"while \(put_bits >= (\d+)\) \{", ehc, "jclhuff.c emit_bits: byte loop")
+m_stuff = need(r"if \(c == (0x[0-9A-Fa-f]+)\) \{\s*emit_byte\(state, 0, return FALSE\);", ehc, "jclhuff.c emit_bits: zero stuffing")
+need(r"put_buffer <<= 8;\s*put_bits -= 8;", ehc, "jclhuff.c emit_bits: 'put_buffer <<= 8; put_bits -= 8'")
+need(r"put_buffer &= \(\(\(size_t\)1\) << size\) - 1;", ehc, "jclhuff.c emit_bits: code mask")
+need(r"put_buffer \|= state->cur.put_buffer;", ehc, "jclhuff.c emit_bits: merge")
+m_flush = need(r"emit_bits\(state, (0x[0-9A-Fa-f]+), (\d+)\)", ehc, "jclhuff.c flush_bits")
+need(r"state->cur.put_buffer = 0;\s*state->cur.put_bits = 0;", ehc, "jclhuff.c flush_bits: reset")
+need(r"emit_byte\(state, 0xFF, return FALSE\);\s*emit_byte\(state, JPEG_RST0 \+ restart_num, return FALSE\);", ehc,
+     "jclhuff.c emit_restart")
+m_num = need(r"entropy->next_restart_num\+\+;\s*entropy->next_restart_num &= (\d+);", ehc, "jclhuff.c next_restart_num update")
+need(r"if \(entropy->restarts_to_go == 0\) \{\s*entropy->restarts_to_go = cinfo->restart_interval;", ehc,
+     "jclhuff.c restarts_to_go reload")
+need(r"entropy->restarts_to_go = cinfo->restart_interval;\s*entropy->next_restart_num = 0;", ehc, "jclhuff.c start_pass restart state")
+m_rst0 = need(r"#define\s+JPEG_RST0\s+(0x[0-9A-Fa-f]+)", rd("jpeglib.h"), "jpeglib.h JPEG_RST0")
+fb = strip_comments(rd("jdhuff.c"))
+need(r"if \(c == 0xFF\) \{\s*do \{", fb, "jdhuff.c jpeg_fill_bit_buffer: FF handling")
+need(r"\} while \(c == 0xFF\);\s*if \(c == 0\) \{\s*c = 0xFF;\s*\} else \{\s*cinfo->unread_marker = c;", fb,
+     "jdhuff.c jpeg_fill_bit_buffer: FF 00 / marker")
+byte_consts = [int(m_align.group(1)), int(m_byte.group(1)), int(m_byte.group(2), 16), int(m_loop.group(1)),
+               int(m_stuff.group(1), 16), int(m_flush.group(1), 16), int(m_flush.group(2)), int(m_rst0.group(1), 16),
+               int(m_num.group(1))]
+
+# ---------------------------------------------------------------- pixel formats
+th = rd("turbojpeg.h")
+
+
+def tj_array(name):
+    m = re.search(r"static const int %s\[TJ_NUMPF\] = \{([^}]*)\}" % name, th)
+    if not m:
+        die("turbojpeg.h: %s not found" % name)
+    v = [int(x) for x in re.findall(r"-?\d+", m.group(1))]
+    if len(v) != 12:
+        die("turbojpeg.h: %s has %d entries" % (name, len(v)))
+    return v
+
+
+tjr, tjg, tjb, tja, tjps = [tj_array(n) for n in ("tjRedOffset", "tjGreenOffset", "tjBlueOffset", "tjAlphaOffset", "tjPixelSize")]
+tc = rd("turbojpeg.c")
+m = re.search(r"pf2cs\[TJ_NUMPF\] = \{([^}]*)\}", tc)
+if not m:
+    die("turbojpeg.c: pf2cs not found")
+pf2cs = re.findall(r"JCS_\w+", m.group(1))
+jl = strip_comments(rd("jpeglib.h"))
+m = re.search(r"typedef enum \{([^}]*)\} J_COLOR_SPACE;", jl)
+if not m:
+    die("jpeglib.h: J_COLOR_SPACE not found")
+cs_enum = re.findall(r"JCS_\w+", m.group(1))
+mc = rd("jmorecfg.h")
+defs = dict((a, int(b)) for a, b in re.findall(r"#define\s+((?:EXT_\w+|RGB)_(?:RED|GREEN|BLUE|PIXELSIZE))\s+(\d+)", mc))
+
+
+def cs_array(name):
+    m = re.search(r"static const int %s\[JPEG_NUMCS\] = \{([^}]*)\}" % name, mc)
+    if not m:
+        die("jmorecfg.h: %s not found" % name)
+    out = []
+    for t in re.findall(r"-?\w+", m.group(1)):
+        out.append(int(t) if re.match(r"-?\d+$", t) else defs[t] if t in defs else die("jmorecfg.h: %s undefined" % t))
+    return out
+
+
+cr, cg, cb, cps = [cs_array(n) for n in ("rgb_red", "rgb_green", "rgb_blue", "rgb_pixelsize")]
+if len(pf2cs) != 12 or any(c not in cs_enum for c in pf2cs):
+    die("turbojpeg.c: pf2cs entries not recognised")
+jpeg_layout = []
+for c in pf2cs:
+    k = cs_enum.index(c)
+    jpeg_layout.append((cr[k], cg[k], cb[k], cps[k]))
+# the converters themselves: offsets are used as inptr[RGB_x] / outptr[RGB_x], pointer advanced by RGB_PIXELSIZE
+cce = rd("jccolext.c")
+dce = rd("jdcolext.c")
+need(r"outptr0\[col\] = inptr\[RGB_RED\];\s*outptr1\[col\] = inptr\[RGB_GREEN\];\s*outptr2\[col\] = inptr\[RGB_BLUE\];\s*inptr \+= RGB_PIXELSIZE;",
+     cce, "jccolext.c rgb_rgb_convert_internal loop")
+need(r"outptr\[RGB_RED\] = inptr0\[col\];\s*outptr\[RGB_GREEN\] = inptr1\[col\];\s*outptr\[RGB_BLUE\] = inptr2\[col\];", dce,
+     "jdcolext.c rgb_rgb_convert_internal loop")
+# decompressor: which slot rgb_rgb_convert fills with _MAXJSAMPLE (jdcolor.c "#define RGB_ALPHA n" per inclusion of jdcolext.c)
+dcol = rd("jdcolor.c")
+dec_alpha_by_ext = {}
+for blk in re.findall(r"#define RGB_RED\s+EXT_(\w+)_RED(.*?)#include \"jdcolext.c\"", dcol, re.S):
+    ma = re.search(r"#define RGB_ALPHA\s+(\d+)", blk[1])
+    dec_alpha_by_ext[blk[0]] = int(ma.group(1)) if ma else -1
+if sorted(dec_alpha_by_ext) != ["BGR", "BGRX", "RGB", "RGBX", "XBGR", "XRGB"]:
+    die("jdcolor.c: the six inclusions of jdcolext.c not recognised")
+ALIAS = {"RGBA": "RGBX", "BGRA": "BGRX", "ABGR": "XBGR", "ARGB": "XRGB"}
+for a, x in ALIAS.items():      # jdcolor.c: "case JCS_EXT_RGBX: case JCS_EXT_RGBA: ext..._convert"
+    if not re.search(r"case JCS_EXT_%s:\s*case JCS_EXT_%s:" % (x, a), dcol):
+        die("jdcolor.c: JCS_EXT_%s no longer shares the converter of JCS_EXT_%s" % (a, x))
+dec_alpha = []
+for c in pf2cs:
+    n = c.replace("JCS_EXT_", "") if c.startswith("JCS_EXT_") else None
+    dec_alpha.append(dec_alpha_by_ext[ALIAS.get(n, n)] if n else -1)
+tmp = strip_comments(rd("turbojpeg-mp.c"))
+if len(re.findall(r"if \(this->bottomUp\)\s*row_pointer\[i\] = \(_JSAMPROW\)&srcBuf\[\(height - i - 1\) \* \(size_t\)pitch\];\s*else\s*row_pointer\[i\] = \(_JSAMPROW\)&srcBuf\[i \* \(size_t\)pitch\];", tmp)) != 1:
+    die("turbojpeg-mp.c: tj3Compress row pointers not recognised")
+if not re.search(r"if \(this->bottomUp\)\s*row_pointer\[i\] = &dstBuf\[\((?:dinfo->output_height|croppedHeight) - i - 1\) \* \(size_t\)pitch\];\s*else\s*row_pointer\[i\] = &dstBuf\[i \* \(size_t\)pitch\];", tmp):
+    die("turbojpeg-mp.c: tj3Decompress row pointers not recognised")
+
 print("(* GENERATED by tools/gen_Lossless.py from src/jlossls.h, jclossls.c, jdlossls.c, jddiffct.c, jclhuff.c, jdlhuff.c -- do not edit *)")
 print("From Coq Require Import List ZArith.\nImport ListNotations.\nLocal Open Scope Z_scope.\n")
 print("(* jlossls.h PREDICTOR1..7, translated term by term ((int)/(JLONG) casts dropped, RIGHT_SHIFT = Z.shiftr) *)")
@@ -287,5 +397,15 @@ print("   completed MCU); both suspension exits are 'return mcu_num'; jddiffct.c
 print("Definition gen_bitread_save_per_mcu : bool := %s." % ("true" if save_per_mcu else "false"))
 print("Definition gen_suspend_returns_mcu_num : bool := %s." % ("true" if fail_actions == 2 else "false"))
 print("Definition gen_resume_at_mcu_ctr : bool := %s.\n" % ("true" if ctr_adv else "false"))
+print("(* jclhuff.c emit_bits / flush_bits / emit_restart, jpeglib.h JPEG_RST0: align shift, byte shift, byte mask, loop bound,")
+print("   stuffed value, flush code, flush size, RST0, restart-number mask *)")
+print("Definition gen_byte_consts : list Z := [%s].\n" % "; ".join(str(x) for x in byte_consts))
+print("(* per TurboJPEG pixel format 0..11: turbojpeg.h (red, green, blue, alpha, pixel size) and, through turbojpeg.c pf2cs,")
+print("   jmorecfg.h (rgb_red, rgb_green, rgb_blue, rgb_pixelsize) of the colour space given to the converters *)")
+print("Definition gen_tj_layout : list (Z * Z * Z * Z * Z) := [%s]." % "; ".join(
+    "(%d, %d, %d, %d, %d)" % (tjr[i], tjg[i], tjb[i], tja[i], tjps[i]) for i in range(12)))
+print("(* slot that the decompressor's rgb_rgb_convert sets to _MAXJSAMPLE (jdcolor.c RGB_ALPHA), per TurboJPEG pixel format *)")
+print("Definition gen_dec_alpha : list Z := [%s]." % "; ".join(str(x) for x in dec_alpha))
+print("Definition gen_jpeg_layout : list (Z * Z * Z * Z) := [%s].\n" % "; ".join("(%d, %d, %d, %d)" % x for x in jpeg_layout))
 print("Definition gen_huff_consts : list Z := [%d; %d; %d; %d; %s; %s; %s]." % (
-    int(sign[0], 16), int(negm[0], 16), int(posm[0], 16), int(big[0], 16), noex[0], m.group(1), m.group(2)))
+    int(sign[0], 16), int(negm[0], 16), int(posm[0], 16), int(big[0], 16), noex[0], m16.group(1), m16.group(2)))
